@@ -4,7 +4,18 @@ The driver (mode `tui`) rebuilds a Jet1090 from an abstract state, applies ONE r
 logs (before, event, after | panic). This module expands the frontier until no new state appears and judges every
 transition with the invariants of the property.
 """
-from common import Rep, drive, Inconclusive
+from common import Rep, drive, Inconclusive, df17, me_ident
+
+# aircraft the program knows about (state vectors) are fed to the driver as frames; the first n of them are the rows
+# displayed, the others are known but not displayed (heard once, silent for a while, excluded by a search)
+KNOWN = [df17(0x400000 + k, me_ident(4, 0, "KNOWN%02d" % k)).hex() for k in range(12)]
+
+
+def wire(st):
+    """the state as the driver wants it: the known aircraft as frames"""
+    d = {k: v for k, v in st.items() if k != "hidden"}
+    d["known"] = KNOWN[: st["n"] + st.get("hidden", 0)]
+    return d
 
 SORT_KEYS = {"a": "ALTITUDE", "c": "CALLSIGN", "v": "VRATE", ".": "COUNT", "f": "FIRST", "l": "LAST"}
 CHARS = ["j", "k", "g", "q", "a", "c", "v", ".", "f", "l", "-", "/", "x", "Q", "A", "J", " "]
@@ -19,7 +30,8 @@ RULE = ("a case is one (UI state, event) pair executed through the real update()
         "metacharacters, long runs of navigation keys")
 
 ASSUMPTIONS = [
-    "the abstract state (rows, selected, search mode, query, sort key, order, quit, width) is everything update() reads or writes",
+    "the abstract state (rows displayed, aircraft known but not displayed, selected, search mode, query, sort key, order, quit, width) is everything update() reads or writes; "
+    "the known aircraft are put into the state vectors by the real update_snapshot from one identification frame each",
     "rows are only changed by rendering (table.rs), not by update(): each table size is explored separately",
     "documented keys: (Esc/Q) quit, (up/K) (down/J) (top/G) navigation, (/) search, . A C F L V sort, - order (docs/output.md, INFO_TEXT); "
     "inside the search box characters are text, Enter/Esc leave it",
@@ -42,7 +54,7 @@ def ev_name(e):
 
 
 def key_of(st):
-    return (st["n"], st["selected"], st["search"], st["query"], st["sort"], st["asc"], st["quit"], st["width"])
+    return (st["n"], st["selected"], st["search"], st["query"], st["sort"], st["asc"], st["quit"], st["width"], st.get("hidden", 0))
 
 
 def judge(before, e, after, result, panic):
@@ -87,9 +99,9 @@ def judge(before, e, after, result, panic):
     return bad
 
 
-def explore(rep, binary, pool, sizes, qmax, expand_chars, max_states):
-    start = [{"n": n, "selected": 0, "search": False, "query": "", "sort": "COUNT", "asc": False, "quit": False, "width": 0}
-             for n in sizes]
+def explore(rep, binary, pool, sizes, qmax, expand_chars, max_states, hidden=(0,)):
+    start = [{"n": n, "selected": 0, "search": False, "query": "", "sort": "COUNT", "asc": False, "quit": False, "width": 0, "hidden": h}
+             for n in sizes for h in hidden]
     seen = {key_of(s) for s in start}
     frontier = list(start)
     evs = events()
@@ -101,10 +113,10 @@ def explore(rep, binary, pool, sizes, qmax, expand_chars, max_states):
         nxt = []
         # the frontier is worked off in slices, so that memory stays bounded whatever its size
         for lo in range(0, len(frontier), 8000):
-          lines = [{"state": s, "event": e} for s in frontier[lo:lo + 8000] for e in evs]
+          lines = [{"state": wire(s), "event": e, "_st": s} for s in frontier[lo:lo + 8000] for e in evs]
           chunks = [lines[i::16] for i in range(16)]
           chunks = [c for c in chunks if c]
-          logs = pool.starmap(drive, [(binary, "tui", c) for c in chunks])
+          logs = pool.starmap(drive, [(binary, "tui", [{"state": x["state"], "event": x["event"]} for x in c]) for c in chunks])
           for c, log in zip(chunks, logs):
               if len(log) != len(c):
                   raise Inconclusive(f"tui driver answered {len(log)} of {len(c)} transitions")
@@ -114,11 +126,16 @@ def explore(rep, binary, pool, sizes, qmax, expand_chars, max_states):
                   before, after = res.get("before"), res.get("after")
                   if res.get("result") == "bad-event" or before is None:
                       raise Inconclusive(f"tui driver rejected {cmd}")
-                  if key_of(before) != key_of(cmd["state"]):
-                      raise Inconclusive(f"tui driver rebuilt {before} from {cmd['state']}")
+                  hid = cmd["_st"].get("hidden", 0)
+                  before["hidden"] = hid
+                  if after is not None:
+                      after["hidden"] = hid
+                  if key_of(before) != key_of(cmd["_st"]) or before.get("known_count") != before["n"] + hid:
+                      raise Inconclusive(f"tui driver rebuilt {before} from {cmd['_st']}")
                   e = cmd["event"]
                   rep.cls("event:" + ev_name(e))
                   rep.cls(f"rows:{before['n']}")
+                  rep.cls(f"known-but-not-displayed:{hid}")
                   if res.get("result") == "ok" and key_of(after) != key_of(before):
                       rep.hashes.add(hash((key_of(before), ev_name(e))))
                   verdicts = judge(before, e, after, res.get("result"), res.get("panic"))
@@ -159,7 +176,8 @@ def deep_walks(rep, binary, pool, sizes, nwalk, steps, seed):
     what the breadth-first bound cuts off (long search queries, characters of 2, 3 and 4 bytes, long runs of one key)"""
     import random
     rng = random.Random(seed ^ 0xC17D)
-    start = lambda: {"n": rng.choice(sizes), "selected": 0, "search": False, "query": "", "sort": "COUNT", "asc": False, "quit": False, "width": 0}
+    start = lambda: {"n": rng.choice(sizes), "selected": 0, "search": False, "query": "", "sort": "COUNT", "asc": False, "quit": False, "width": 0,
+                     "hidden": rng.choice([0, 0, 1, 3, 7])}
     walkers = [start() for _ in range(nwalk)]
     styles = [rng.choice(["typist", "typist", "navigator", "mixed"]) for _ in range(nwalk)]
     evs = events()
@@ -177,10 +195,10 @@ def deep_walks(rep, binary, pool, sizes, nwalk, steps, seed):
                     e = {"char": rng.choice(WIDE_CHARS)} if r < 0.9 else {"code": "Backspace"} if r < 0.96 else rng.choice(evs)
             else:
                 e = rng.choice(evs) if rng.random() < 0.7 else {"char": rng.choice(["j", "k", "g", "J", "K", "G"])}
-            lines.append({"state": w, "event": e})
+            lines.append({"state": wire(w), "event": e, "_st": w})
         chunks = [lines[i::16] for i in range(16)]
         idx = [list(range(len(lines)))[i::16] for i in range(16)]
-        logs = pool.starmap(drive, [(binary, "tui", c) for c in chunks if c])
+        logs = pool.starmap(drive, [(binary, "tui", [{"state": x["state"], "event": x["event"]} for x in c]) for c in chunks if c])
         k = 0
         for c, ix in zip(chunks, idx):
             if not c:
@@ -195,6 +213,10 @@ def deep_walks(rep, binary, pool, sizes, nwalk, steps, seed):
                 if res.get("result") == "bad-event" or before is None:
                     raise Inconclusive(f"tui driver rejected {cmd}")
                 e = cmd["event"]
+                hid = cmd["_st"].get("hidden", 0)
+                before["hidden"] = hid
+                if after is not None:
+                    after["hidden"] = hid
                 rep.cls("deep-walk:steps")
                 verdicts = judge(before, e, after, res.get("result"), res.get("panic"))
                 for cname, text in verdicts:
@@ -231,10 +253,10 @@ def run(tier, seed, binary, pool):
     rep.extra["query_alphabet_expanded"] = "".join(sorted(expand))
     rep.extra["mandatory"] = ["rows:0", "rows:1", "rows:3", "event:char:j", "event:char:k", "event:Up", "event:Down",
                               "event:Tick(80)", "event:Error"]
-    complete = explore(rep, binary, pool, sizes, qmax, expand, 2_000_000)
+    complete = explore(rep, binary, pool, sizes, qmax, expand, 2_000_000, hidden=(0, 2) if tier == "quick" else (0, 1, 3))
     rep.exhaustive = complete
     deep_walks(rep, binary, pool, sizes, 800 if tier == "quick" else 4000, 80 if tier == "quick" else 400, seed)
-    rep.extra["mandatory"] += ["deep-walk:steps", "deep-walk:query>=24-bytes", "deep-walk:query-with-multi-byte-characters"]
+    rep.extra["mandatory"] += ["known-but-not-displayed:2" if tier == "quick" else "known-but-not-displayed:3", "deep-walk:steps", "deep-walk:query>=24-bytes", "deep-walk:query-with-multi-byte-characters"]
     # the real terminal interface in a pseudo-terminal (key bytes -> crossterm -> tui.rs -> update() -> table.rs)
     import os
     import sysjet
